@@ -240,8 +240,17 @@ impl<'a> Hook for Adv<'a> {
     }
 
     fn before_deliver(&mut self, w: &mut World, pi: usize, m: &Resp) {
+        // the outstanding request is the second one of a tau recheck (the client switched its tau check off for this answer)
+        let rechecking = w.client.is_some()
+            && w.c().peers.get_state(&w.peers[pi].id).and_then(|st| st.get_prove_request().map(|r| r.if_skip_check_tau())).unwrap_or(false);
+        if rechecking && m.proto == LC && server::kind_of(m.proto, &m.data) == "SendLastStateProof" {
+            self.out.count(if matches!(m.label, Label::Invalid(_)) { "invalid_answers_delivered_during_tau_recheck" } else { "other_answers_delivered_during_tau_recheck" }, 1);
+        }
         if let Label::Invalid(op) = &m.label {
             self.state_before = state_name(w, w.peers[pi].id);
+            if rechecking {
+                self.state_before.push_str("+tau-recheck");
+            }
             self.before = Some(trusted_state(w));
             // ground rule: a message is INVALID iff it differs from the honest answer to the request that is
             // outstanding *now* (an earlier message may have made the client ask something else meanwhile)
@@ -360,7 +369,7 @@ pub fn run(cfg: &RunCfg, out: &Out) {
 fn scenario(seed: u64, k: u64, out: &Out) {
     let mut rng = Rng::new(seed);
     let (now, base_ts) = time_base();
-    let params = gen_params(&mut rng, seed, base_ts);
+    let params = gen_params_with_jumps(&mut rng, seed, base_ts);
     let len = gen_len(&mut rng).min(260);
     let ccfg = gen_ccfg(&mut rng);
     let main = Chain::generate(params.clone(), len);
